@@ -3,8 +3,8 @@ C14 — protocols: each step's parameter values hold exactly over its interval.
 
 Theorems about `Mxl.C14.makeProtocol`, `simulateProtocol`, `simulateProtocolTC`, `stepP`, `runP`
 (Model/C14.lean; the functions the driver executes) on top of the C04 machine.  A protocol is
-*well-formed* (`wfSteps`) when its durations are positive and every step names the same distinct
-parameters in the same order.  Since the repair of F-C04-2 (root cause of F-C14-2) the history theorems hold
+*well-formed* (`wfSteps`) when its durations are positive — which parameters a step names, and in which
+order, is free (steps may name different parameters).  Since the repair of F-C04-2 (root cause of F-C14-2) the history theorems hold
 for every history whose protocols are well-formed — also when a protocol follows a steady-state run.
 The comparison operators of the refusal test and of the half-open selection are read from the current source
 (`Gen.protocolTCRefusal`, `Gen.selectLo`, `Gen.selectHi`; translate/c04.py): see `C14_source_facts`.
